@@ -279,6 +279,7 @@ type BytecodeCompiler struct {
 	unhygienic            bool
 	additionalAbortChecks bool
 	hasDefer              bool
+	pendingCalls          []*bytecodeCall // calls registered for later optimisation by this compiler
 	mode                  bytecodeCompilerMode
 }
 
@@ -1141,6 +1142,11 @@ func (c *BytecodeCompiler) prepLocals() {
 	for _, id := range c.offsetValueIds {
 		currentValue := c.bytecode.Values[id].MustSmallInt()
 		c.bytecode.Values[id] = (currentValue + value.SmallInt(len(newInstructions))).ToValue()
+	}
+
+	// calls that will be patched later have been shifted as well
+	for _, call := range c.pendingCalls {
+		call.bytecodeOffset += len(newInstructions)
 	}
 }
 
@@ -9228,17 +9234,17 @@ func (c *BytecodeCompiler) compileOptimisedCallMethod(receiverType types.Type, n
 			tailCall,
 		)
 
-		c.globalData.callsToOptimise.Push(
-			newBytecodeCall(
-				name,
-				c.bytecode,
-				offset,
-				receiverNamespace,
-				argCount,
-				callSiteIndex,
-				tailCall,
-			),
+		call := newBytecodeCall(
+			name,
+			c.bytecode,
+			offset,
+			receiverNamespace,
+			argCount,
+			callSiteIndex,
+			tailCall,
 		)
+		c.pendingCalls = append(c.pendingCalls, call)
+		c.globalData.callsToOptimise.Push(call)
 		return
 	}
 
@@ -9262,17 +9268,17 @@ func (c *BytecodeCompiler) compileOptimisedCallMethod(receiverType types.Type, n
 			tailCall,
 		)
 
-		c.globalData.callsToOptimise.Push(
-			newBytecodeCall(
-				name,
-				c.bytecode,
-				offset,
-				receiverNamespace,
-				argCount,
-				callSiteIndex,
-				tailCall,
-			),
+		call := newBytecodeCall(
+			name,
+			c.bytecode,
+			offset,
+			receiverNamespace,
+			argCount,
+			callSiteIndex,
+			tailCall,
 		)
+		c.pendingCalls = append(c.pendingCalls, call)
+		c.globalData.callsToOptimise.Push(call)
 	default:
 		c.emitCallMethod(
 			vm.NewCallSiteInfo(name, argCount),
